@@ -134,6 +134,51 @@ def rconstraint_shape(ename, variant, kinds):
     return sh
 
 
+def periodic_shape(cls, period, window, kinds, horizon=12):
+    """Completeness of the periodic rules inside a concrete horizon: every occurrence that can meet
+    [0, horizon] is spelled out (k from -2 to horizon/period + 2, |offset| <= period), so S_valid needs no
+    quantifier over the period index."""
+    name = f"{cls}/period={period},window={window}/worker/{'+'.join(kinds)}/horizon{horizon}"
+
+    def build(P):
+        pb, hv = new_problem(P, horizon)
+        tis = [make_task(P, "ABC"[i], k) for i, k in enumerate(kinds)]
+        res, busy, named = setup_resource(P, tis, "worker")
+        kw = dict(name="rc", resource=res, period=period, offset=P.int("r_offset", ph=0),
+                  list_of_time_intervals=[(P.int("r_lo0", ph=1), P.int("r_hi0", ph=2))])
+        if window in ("start", "both"):
+            kw["start"] = P.int("r_start", ph=2)
+        if window in ("end", "both"):
+            kw["end"] = P.int("r_end", ph=10)
+        getattr(ps, cls)(**kw)
+        return Ctx(problem=pb, tis=tis, busy=busy, horizon=hv)
+
+    def obligations(ctx):
+        P, H = ctx.P, ctx.problem._horizon
+        lo, hi, off = P.v("r_lo0"), P.v("r_hi0"), P.v("r_offset")
+        cl = [base_valid(ctx.tis, H, ctx.horizon)]
+        for t, (bs, be) in ctx.busy:
+            cl += [bs == t.s, be == t.e, t.e > t.s]
+            free = And([Or(be <= lo + off + k * period, bs >= hi + off + k * period) for k in range(-2, horizon // period + 3)])
+            exempt = []
+            if window in ("start", "both"):
+                exempt.append(be <= P.v("r_start"))
+            if window in ("end", "both"):
+                exempt.append(bs >= P.v("r_end"))
+            cl.append(Or([free] + exempt))
+        for (t1, (b1, e1)), (t2, (b2, e2)) in itertools.combinations(ctx.busy, 2):
+            cl.append(Or(e1 <= b2, e2 <= b1))
+        observables = [o for t in ctx.tis for o in t.observables()] + [H] + [v for _, iv in ctx.busy for v in iv]
+        return [Ob(f"{PROP}/{name}/valid_schedule_admitted", "complete", valid=And(cl), observables=observables)]
+
+    sh = Shape(name, build, obligations)
+    sh.assumptions = lambda P: [0 <= P.v("r_lo0"), P.v("r_lo0") < P.v("r_hi0"), P.v("r_hi0") <= period,
+                                P.v("r_offset") >= -period, P.v("r_offset") <= period] + \
+                               ([P.v("r_start") >= 0] if window in ("start", "both") else [])
+    sh.grid_limit = 3
+    return sh
+
+
 def workers_rel_shape(cls, nworkers):
     name = f"{cls}/{nworkers}_common_workers"
 
@@ -312,6 +357,12 @@ def shapes(tier):
             klist = [("fixed", "fixed"), ("fixed", "var", "fixed")] if el.min_tasks >= 2 else [("fixed",), ("fixed", "var")]
             for kinds in (klist if thorough else klist[:2]):
                 out.append(rconstraint_shape(ename, variant, kinds))
+    for cls in ("ResourcePeriodicallyUnavailable", "ResourcePeriodicallyInterrupted"):
+        for period in (3, 5):
+            for window in ("none", "start", "end") + (("both",) if thorough else ()):
+                out.append(periodic_shape(cls, period, window, ("fixed",)))
+                if thorough or window == "none":
+                    out.append(periodic_shape(cls, period, window, ("fixed", "fixed")))
     for cls in ("SameWorkers", "DistinctWorkers"):
         for nw in (2, 3) + ((4,) if thorough else ()):
             out.append(workers_rel_shape(cls, nw))
@@ -331,6 +382,6 @@ def main(tier):
             "S_valid contains only schedules valid beyond dispute: positive-length tasks for order/overlap based rules, no ties, well-formed disjoint interval lists (ambiguous regions raise no alarm)",
             "completeness composes over elements whose auxiliaries are private (DESIGN 3.2); each element is checked with 1-3 tasks",
             "quantified queries (forall aux) are decided by z3 (MBQI); unknown = inconclusive",
-            "periodic constraints, buffers with forall-defined functions and ResourceInterrupted duration accounting are outside the completeness claim",
+            "periodic constraints: completeness inside a concrete horizon of 12 with every occurrence spelled out (fixed-duration tasks, |offset| <= period); ResourceInterrupted duration accounting is outside the completeness claim",
             "the verdict plumbing of solve() (False iff unsat/unknown) is checked with the solver stub in C13",
         ])
